@@ -199,26 +199,7 @@ def run(ctx: Ctx):
 
     # ---- R01.f definition before use ----------------------------------------------------------------------
     ctx.rule("R01.f", "definition before use: dependencies are complete, the sorter receives (name, *its dependencies), rhs prints x.symbol = x.expr before values[k] = x.symbol, the template orders unpacking, allocation, body, return", floor=5)
-    from sa import av as _avf
-
-    fd = sm.func("atoms.py", "Expression._find_dependencies")
-    fv = util.value_of(ctx, fd)
-    if _avf.has_unk(fv):
-        ctx.undecided("R01.f", fd.key("complete"), f"what _find_dependencies collects is not understood ({_avf.find_all(fv, 'unk')[0][1]})", fd.where())
-    else:
-        inner = fv
-        while inner[0] == "call" and inner[1] in ("frozenset", "set", "tuple", "sorted", "list") and len(inner[2]) == 1:
-            inner = _avf._unwrap_seq(inner[2][0])
-        inner = _avf._unwrap_seq(inner)
-        okd = False
-        if inner[0] == "comp":
-            bv = ("bv", inner[1])
-            it_ok = inner[2] == ("mcall", ("sym", "self.tree"), "iter_subtrees", (), ())
-            cond_ok = inner[4] == (("cmp", "==", ("attr", bv, "data"), _avf.C("variable")),)
-            first = ("sub", ("attr", bv, "children"), _avf.C(0))
-            item_ok = len(inner[3]) == 1 and inner[3][0] in (_avf.mk_s((("h", first),)), first, ("attr", first, "value"))
-            okd = it_ok and cond_ok and item_ok
-        ctx.check(okd, "R01.f", fd.key("complete"), "every `variable` subtree is a dependency", f"Expression._find_dependencies collects {_avf.show(fv)[:140]}, not the name of every `variable` node of the expression tree (a used name could be missing from the dependency graph and be defined after its use)", fd.where())
+    check_dependencies_complete(ctx, "R01.f")
     util.same_as_reference(ctx, "R01.f", "ode.py", "sort_assignments", REF_SORT_ASSIGNMENTS, "node-predecessors", "sorter.add(name, *sorted dependencies of that assignment) for every assignment; static_order(); optional filter to assignment names", "sort_assignments does not feed graphlib with (assignment name, *its own sorted dependencies) for every assignment and return static_order() (filtered to the assignments): definitions could be printed after their use")
     cg = util.nf(ctx, "codegen/base.py", "CodeGenerator.rhs")
     loops = [n for n in ast.walk(cg.node) if isinstance(n, ast.For) and "sorted_assignments" in util.ctext(cg, n.iter) and isinstance(n.target, ast.Name)]
@@ -571,6 +552,33 @@ def time_aliases(ctx: Ctx, rule: str):
         ctx.undecided(rule, pa.key("formal-t"), "the formal argument table is not understood", pa.where())
     else:
         ctx.check(entg.get("t") == _avg.C("t"), rule, pa.key("formal-t"), "formal time argument is `t`", f"the formal time argument is {_avg.show(entg.get('t')) if entg.get('t') else None}", pa.where())
+
+
+def check_dependencies_complete(ctx: Ctx, rule: str):
+    """Expression._find_dependencies collects the name of *every* `variable` node of the expression tree: a name that is
+    left out (because it looks like the time variable, say) is missing from the dependency graph - the definition can be
+    printed after its use, and a cycle through it is no longer seen."""
+    sm = ctx.sm
+    from sa import av as _avf
+
+    fd = sm.func("atoms.py", "Expression._find_dependencies")
+    fv = util.value_of(ctx, fd)
+    if _avf.has_unk(fv):
+        ctx.undecided(rule, fd.key("complete"), f"what _find_dependencies collects is not understood ({_avf.find_all(fv, 'unk')[0][1]})", fd.where())
+    else:
+        inner = fv
+        while inner[0] == "call" and inner[1] in ("frozenset", "set", "tuple", "sorted", "list") and len(inner[2]) == 1:
+            inner = _avf._unwrap_seq(inner[2][0])
+        inner = _avf._unwrap_seq(inner)
+        okd = False
+        if inner[0] == "comp":
+            bv = ("bv", inner[1])
+            it_ok = inner[2] == ("mcall", ("sym", "self.tree"), "iter_subtrees", (), ())
+            cond_ok = inner[4] == (("cmp", "==", ("attr", bv, "data"), _avf.C("variable")),)
+            first = ("sub", ("attr", bv, "children"), _avf.C(0))
+            item_ok = len(inner[3]) == 1 and inner[3][0] in (_avf.mk_s((("h", first),)), first, ("attr", first, "value"))
+            okd = it_ok and cond_ok and item_ok
+        ctx.check(okd, rule, fd.key("complete"), "every `variable` subtree is a dependency", f"Expression._find_dependencies collects {_avf.show(fv)[:140]}, not the name of every `variable` node of the expression tree (a used name could be missing from the dependency graph and be defined after its use)", fd.where())
 
 
 def front_end(ctx: Ctx, R: dict, declare: bool = True):
